@@ -196,6 +196,8 @@ impl TimeTrigger {
 
         #[cfg(not(test))]
         let current = Local::now();
+        #[cfg(all(feature = "verif_hooks", not(test)))]
+        let current = crate::verif_hooks::now_override().unwrap_or(current);
         let next_time = TimeTrigger::get_next_time(current, config.interval, config.modulate);
         let next_roll_time = if config.max_random_delay > 0 {
             let random_delay = rand::thread_rng().gen_range(0..config.max_random_delay);
@@ -283,6 +285,36 @@ impl TimeTrigger {
     }
 }
 
+#[cfg(feature = "verif_hooks")]
+impl TimeTrigger {
+    /// verification hook: the private schedule computation
+    pub fn verif_get_next_time(
+        current: DateTime<Local>,
+        interval: TimeTriggerInterval,
+        modulate: bool,
+    ) -> DateTime<Local> {
+        TimeTrigger::get_next_time(current, interval, modulate)
+    }
+
+    /// verification hook: the currently scheduled roll time
+    pub fn verif_next_roll_time(&self) -> DateTime<Local> {
+        *self.next_roll_time.read().unwrap()
+    }
+
+    /// verification hook: build a config without serde
+    pub fn verif_config(
+        interval: TimeTriggerInterval,
+        modulate: bool,
+        max_random_delay: u64,
+    ) -> TimeTriggerConfig {
+        TimeTriggerConfig {
+            interval,
+            modulate,
+            max_random_delay,
+        }
+    }
+}
+
 impl Trigger for TimeTrigger {
     fn trigger(&self, _file: &LogFile) -> anyhow::Result<bool> {
         #[cfg(test)]
@@ -298,6 +330,8 @@ impl Trigger for TimeTrigger {
 
         #[cfg(not(test))]
         let current: DateTime<Local> = Local::now();
+        #[cfg(all(feature = "verif_hooks", not(test)))]
+        let current = crate::verif_hooks::now_override().unwrap_or(current);
         let mut next_roll_time = self.next_roll_time.write().unwrap();
         let is_trigger = current >= *next_roll_time;
         if is_trigger {
